@@ -111,6 +111,7 @@ pub struct Renderer<'r> {
     pub comments: bool,
     /// model the parser's keep_tags option: declarations stay in force in later documents
     pub keep_tags: bool,
+    pub trailing_tabs: bool,
     last_leaf_null: bool,
 }
 
@@ -151,6 +152,7 @@ impl<'r> Renderer<'r> {
             may_interleave: true,
             comments: true,
             keep_tags: false,
+            trailing_tabs: false,
             last_leaf_null: false,
         }
     }
@@ -174,6 +176,15 @@ impl<'r> Renderer<'r> {
 
     /// End the current line, optionally with a trailing comment.
     fn eol(&mut self, comment_ok: bool) {
+        // trailing blanks (also tabs) at the end of a line or before a comment are not content
+        // (not directly after a bare indicator: a tab there is *separation* inside block structure,
+        // which the renderer avoids — see Appendix A)
+        let last_line = self.out.rsplit('\n').next().unwrap_or("").trim_end_matches(' ');
+        let after_indicator = matches!(last_line.chars().last(), Some('?' | '-' | ':')) && (last_line.len() == 1 || last_line[..last_line.len() - 1].ends_with(' '));
+        if comment_ok && self.comments && self.trailing_tabs && !after_indicator && self.r.chance(1, 14) {
+            self.out.push_str(if self.r.chance(1, 2) { "\t" } else { " \t " });
+            self.note("trailing-tab");
+        }
         if comment_ok && self.comments && self.r.chance(1, 10) {
             self.out.push_str(if self.r.chance(1, 2) { " # c" } else { "  #comment text" });
             self.note("trailing-comment");
